@@ -12,7 +12,7 @@ pub fn rule(prop: &str) -> &'static str {
         "C05" => "all types; in-range values and values with exactly one injected fault (scalar 2^w / backing max, array one element beyond its size field, count field or padding, payload beyond its size field, unequal element sizes, contradictory optional flags), each confirmed by the reference. Oracle: no panic; in-range => Ok and len == encoded_len(); fault => the matching EncodeError, never Ok. Non-trivial: fault cases and in-range values with a variable part; distinct by (type, value).",
         "C06" => "types with descendants; parent values decoded from byte strings (C01 classes, incl. encodings of children) and child values. Oracle: reference specialisation model (admissible children by accumulated constraints and constant sizes), child value equals the reference decoding, Err only if an admissible child fails to parse, None only if no discriminated child matches and parses; TryFrom down agrees with the reference (ConstraintValueError iff a constraint is violated); TryFrom up keeps constraint values, encodes to the same bytes, converts back. Non-trivial: some child admissible, or child-value laws; distinct by (type, input).",
         "C15" => "Rust: every enum of the batch (enum strata forced); all integers of the backing type for w <= 16 (exhaustive), else 0,1,2, +-2 around every tag value, range bound, 2^w-1, 2^w, backing max, plus uniform draws. Oracle: reference classifier (named / in-range / default / invalid incl. >= 2^w), variant name, back-conversion, every widening From, default(). Python (18 / 120 enum-stratum descriptions): E.from_int(x) returns the member for top-level value tags, the bare integer for range / default / nested-tag values, raises EnumValueError otherwise (exhaustive for w <= 12). C++: IsValid<E>(x) for closed enums equals the classifier's verdict, including values >= 2^w that the parameter type can hold. Non-trivial: x within 2 of a declared bound or >= 2^w; distinct by (backend, enum, x).",
-        "C17" => "LE/BE twin descriptions; in-range values; oracle: both encodings have equal length and the BE bytes are the LE bytes with every multi-octet swappable chunk (bit-field group, scalar/enum element, optional scalar/enum, sized custom field) reversed, using only the chunk boundaries of the reference layout map. Non-trivial: >= 1 chunk of >= 2 octets; distinct by (type, value).",
+        "C17" => "LE/BE twin descriptions; in-range values; oracle: both encodings have equal length and the BE bytes are the LE bytes with every multi-octet swappable chunk (bit-field group, scalar/enum element, optional scalar/enum, sized custom field) reversed, using only the chunk boundaries of the reference layout map. Run on the compiled generated Rust, and on the Python (CPython driver), C++ (compiled-in builder values, packet_runtime.h) and Java (reflection driver) serializers generated for twin descriptions of their profiles. Non-trivial: >= 1 chunk of >= 2 octets; distinct by (backend, type, value).",
         "C18" => "all types; byte strings and values (incl. failing ones); oracle: decode_full == decode mapped by remainder emptiness (TrailingBytesError), decode_mut advances exactly / untouched on error, encode_to_vec == encode_to_bytes == encode(Vec) == encode(BytesMut), encoding into a pre-filled buffer appends. Non-trivial: non-empty remainder, failing op, or non-empty prefix; distinct by (type, input).",
         _ => "",
     }
@@ -80,6 +80,13 @@ pub fn run(prop: &str, tier: &str, seed: u64) -> i32 {
         let progs = legs.programs;
         partial.merge(legs);
         partial.notes.push(format!("{progs} descriptions in the Python / C++ legs"));
+    }
+    if prop == "C17" {
+        // the same relation on the serializers generated for Python, C++ and Java
+        let legs = crate::c17x::run_legs(tier, seed, &kf);
+        let progs = legs.programs;
+        partial.merge(legs);
+        partial.notes.push(format!("{progs} twin descriptions in the Python / C++ / Java legs"));
     }
     // shards count the descriptions they touch: replace the sum by the number of compiled descriptions
     partial.programs = (built.batch.descs.len() - built.skip.len()) as u64;
